@@ -109,6 +109,14 @@ def run_forked(prop, case, hashseed, wall=CHILD_WALL_S):
         return {'harness_error': 'bad child output: %s' % e}
 
 
+def run_case_any(prop, case, hashseed, wall=CHILD_WALL_S):
+    """Properties may drive several pristine forks per case (C19: session + solo re-executions)."""
+    f = getattr(prop, 'run_in_zygote', None)
+    if f is not None:
+        return f(case, hashseed, lambda c, wall=wall: run_forked(prop, c, hashseed, wall))
+    return run_forked(prop, case, hashseed, wall)
+
+
 def _has(res, cls, site):
     return any(v['cls'] == cls and v['site'] == site for v in res.get('viol', ()))
 
@@ -123,7 +131,7 @@ def minimise(prop, case, cls, site, hashseed):
             evals += 1
             if evals > SHRINK_EVALS:
                 break
-            r = run_forked(prop, cand, hashseed, wall=30)
+            r = run_case_any(prop, cand, hashseed, wall=30)
             if _has(r, cls, site):
                 case = cand
                 improved = True
@@ -141,11 +149,21 @@ def do_round(pid, seed, rnd, tier):
     seen_v = {}
     dig = []
     bad_cases = 0
+    logging_replica = os.environ.get('VERIF_REPLICA_LOGGING') == '1'
+    out['step_digests'] = []
+    out['step_notes'] = []
+    out['step_argsigs'] = []
     for i, case in enumerate(cases):
         if bad_cases >= MAX_BAD_CASES:
             out['aborted_after'] = i      # deterministic: depends only on the outcomes so far
             break
-        res = run_forked(prop, case, hashseed)
+        if logging_replica:
+            case['logging'] = True
+        res = run_case_any(prop, case, hashseed)
+        if 'steps' in res:
+            out['step_digests'].append(res['steps'])
+            out['step_notes'].append(res.get('notes', {}))
+            out['step_argsigs'].append(res.get('argsigs', []))
         if 'harness_error' in res or 'harness_timeout' in res:
             out['harness'].append({'case': case, 'res': res})
             if len(out['harness']) > 3:
@@ -171,7 +189,7 @@ def do_round(pid, seed, rnd, tier):
             seen_v[key] = seen_v.get(key, 0) + 1
             if seen_v[key] == 1 and len(out['violations']) < MAX_REPORTED:
                 small, evals = minimise(prop, case, v['cls'], v['site'], hashseed)
-                r2 = run_forked(prop, small, hashseed)
+                r2 = run_case_any(prop, small, hashseed)
                 vv = next((x for x in r2.get('viol', ()) if x['cls'] == v['cls'] and x['site'] == v['site']), v)
                 out['violations'].append({'cls': v['cls'], 'site': v['site'], 'detail': vv.get('detail'),
                                           'case': small, 'orig_case': case, 'hashseed': hashseed, 'round': rnd,
@@ -189,9 +207,26 @@ def do_replay(path):
         rep = json.load(f)
     prop = load_prop(rep['property'])
     hashseed = os.environ.get('PYTHONHASHSEED', 'random')
-    res = run_forked(prop, rep['case'], hashseed)
+    res = run_case_any(prop, rep['case'], hashseed)
     return {'replay': path, 'hashseed': hashseed, 'res': res,
             'reproduced': _has(res, rep['cls'], rep['site'])}
+
+
+def serve(pid):
+    """Zygote server: one JSON case per input line -> one JSON result per output line (used for
+    cross-replica minimisation and replay, where the same interpreter must evaluate many candidate sessions)."""
+    prop = load_prop(pid)
+    hashseed = os.environ.get('PYTHONHASHSEED', 'random')
+    sys.stdout.write(json.dumps({'ready': True, 'hashseed': hashseed}) + '\n')
+    sys.stdout.flush()
+    for line in sys.stdin:
+        line = line.strip()
+        if not line:
+            continue
+        case = json.loads(line)
+        res = run_case_any(prop, case, hashseed)
+        sys.stdout.write(json.dumps(res, ensure_ascii=False) + '\n')
+        sys.stdout.flush()
 
 
 def main(argv):
@@ -201,6 +236,11 @@ def main(argv):
         prop = load_prop(argv[2])
         cases = prop.gen_cases(simrng.stream(int(argv[3]), argv[2], 'round', int(argv[4])), argv[5], int(argv[4]))
         out = {'gen_digest': simrng.hexdigest(cases), 'n': len(cases)}
+    elif argv[1] == 'cases':
+        prop = load_prop(argv[2])
+        out = {'cases': prop.gen_cases(simrng.stream(int(argv[3]), argv[2], 'round', int(argv[4])), argv[5], int(argv[4]))}
+    elif argv[1] == 'serve':
+        return serve(argv[2])
     elif argv[1] == 'replay':
         out = do_replay(argv[2])
     else:
